@@ -18,6 +18,9 @@ PART = {}
 
 META = {
     'engine': 'E1 CrossHair 0.0.110 + z3',
+    'technique': 'bounded symbolic execution of the real file_writer code against an in-memory file-system model: destination '
+                 'existence and the crash step are solver variables, histories/backup runs are partitioned shapes; the CLI gate '
+                 'slice runs with unbounded symbolic warning counts',
     'functions': ['vermouth.file_writer.DeferredFileWriter.open', '_open_tmp_file', '_find_free_path', 'write', '_write_file',
                   '_append_file', 'close', 'vermouth.pdb.pdb.write_pdb', 'vermouth.gmx.gro.write_gro',
                   'vermouth.gmx.topology.write_gmx_topology', 'bin/martinize2:entry (gate slice)',
